@@ -41,6 +41,7 @@ def setup(ctx):
         "with TOFU off the store must stay untouched; unparsable certificates are then not judged",
     ]
     ctx.require("monitor", "speak_first_calls", 18)
+    ctx.require("monitor", "clients_built_while_store_unavailable", 18)
     ctx.require("monitor", "client_mode_calls", 80)
     ctx.require("monitor", "imports_that_must_skip_conflicts", 8)
     ctx.require("monitor", "l3_calls", 400)
@@ -700,6 +701,100 @@ def run_store_faults(ctx):
                 ctx.case(("store-fault", entry, n, fault.fired, first[0], second[0]), True, sample=wit)
 
 
+def run_store_unavailable_at_construction(ctx):
+    """The pin store cannot be opened / initialised at the moment the client object is built (its path is a
+    directory, its parent is a regular file, the file is not a database, the n-th SQL statement of the constructor
+    fails as a busy store does) - and is fine again afterwards.  Building the client may fail; a client that was
+    built with pinning asked for still refuses a pinned host that presents another certificate."""
+    import warnings as _warnings
+
+    from cryptography import x509
+
+    from checks.c11 import DbFault
+    from nauyaca.client.session import GeminiClient
+    from nauyaca.security.tofu import CertificateChangedError, TOFUDatabase
+
+    P = pool()
+
+    def behaviour(conn):
+        conn.read_line(timeout=5)
+        conn.send(b"20 text/gemini\r\nhello\n")
+        conn.close()
+
+    with peers.ScriptedPeer(P["ec2"], behaviour, name="store-unavailable") as peer:
+        for trouble in ("sql-fault-1", "sql-fault-2", "sql-fault-3", "not-a-database", "path-is-a-directory", "parent-is-a-file"):
+            for entry in ("get", "upload", "delete"):
+                tmp = tempfile.mkdtemp(prefix="vf-c03u-")
+                try:
+                    good = os.path.join(tmp, "tofu.db")
+                    TOFUDatabase(Path(good)).trust("127.0.0.1", peer.port, x509.load_der_x509_certificate(P["ec1"].der))
+                    backup = good + ".aside"
+                    client, built = None, None
+                    try:
+                        with _warnings.catch_warnings():
+                            _warnings.simplefilter("ignore")
+                            if trouble.startswith("sql-fault"):
+                                with DbFault(int(trouble[-1])):
+                                    client = GeminiClient(timeout=8, trust_on_first_use=True, tofu_db_path=Path(good))
+                            else:
+                                os.rename(good, backup)
+                                if trouble == "not-a-database":
+                                    with open(good, "wb") as f:
+                                        f.write(b"this is not an sqlite file" * 40)
+                                elif trouble == "path-is-a-directory":
+                                    os.mkdir(good)
+                                else:
+                                    os.rename(tmp, tmp + ".d")
+                                    with open(tmp, "w") as f:
+                                        f.write("a regular file where the directory was")
+                                try:
+                                    client = GeminiClient(timeout=8, trust_on_first_use=True, tofu_db_path=Path(good))
+                                finally:
+                                    # the trouble passes: the healthy store is back where it was
+                                    if trouble == "parent-is-a-file":
+                                        os.unlink(tmp)
+                                        os.rename(tmp + ".d", tmp)
+                                    elif trouble == "path-is-a-directory":
+                                        os.rmdir(good)
+                                    else:
+                                        os.unlink(good)
+                                    os.rename(backup, good)
+                        built = "built"
+                    except BaseException as e:  # noqa: BLE001
+                        built = f"constructor raised {type(e).__name__}"
+                    ctx.count("monitor", "clients_built_while_store_unavailable")
+                    url = f"gemini://127.0.0.1:{peer.port}/x"
+                    res = None
+                    if client is not None:
+                        async def call():
+                            if entry == "upload":
+                                return await client.upload(url, b"payload", mime_type="text/plain")
+                            if entry == "delete":
+                                return await client.delete(url)
+                            return await client.get(url)
+
+                        try:
+                            r = asyncio.run(call())
+                            res = ("response", r.status)
+                        except CertificateChangedError:
+                            res = ("changed",)
+                        except BaseException as e:  # noqa: BLE001
+                            res = ("error", type(e).__name__, str(e)[:80])
+                        peer.wait_idle(3)
+                        ctx.count("monitor", "l3_calls")
+                        ctx.count("monitor", "changed_cert_calls")
+                    wit = {"level": "L3", "store_trouble_while_the_client_was_built": trouble, "client": built, "then": f"{entry} to a host pinned to another certificate (store healthy again)", "result": res}
+                    if res is not None and res[0] == "response":
+                        ctx.violation(f"accepted-changed-cert:entry={entry}:client-built-while-store-unavailable", "a client built with pinning on (while the store could not be opened) returned a response from a pinned host that presented another certificate", wit)
+                    ctx.case(("store-unavailable", trouble, entry, built.split()[0], res[0] if res else None), True, sample=wit)
+                finally:
+                    for pth in (tmp, tmp + ".d"):
+                        if os.path.isdir(pth):
+                            shutil.rmtree(pth, ignore_errors=True)
+                        elif os.path.exists(pth):
+                            os.unlink(pth)
+
+
 def run_speak_first(ctx):
     """Peers that do not wait for the request: the end of the handshake, a complete response and close_notify
     arrive in one segment (TLS 1.2 and 1.3), so the connection may already be closing when the client gets to
@@ -871,3 +966,5 @@ def run(ctx):
         run_speak_first(ctx)
     if ctx.mine(4) or ctx.nshards == 1:
         run_client_modes(ctx)
+    if ctx.mine(6) or ctx.nshards == 1:
+        run_store_unavailable_at_construction(ctx)
